@@ -32,16 +32,16 @@ const (
 
 // SCMP types.
 const (
-	SCMPDestUnreachable    = 1
-	SCMPPacketTooBig       = 2
-	SCMPParameterProblem   = 4
-	SCMPExtIfDown          = 5
-	SCMPIntConnDown        = 6
-	SCMPEchoRequest        = 128
-	SCMPEchoReply          = 129
-	SCMPTracerouteRequest  = 130
-	SCMPTracerouteReply    = 131
-	scmpInfoBit      uint8 = 0x80
+	SCMPDestUnreachable         = 1
+	SCMPPacketTooBig            = 2
+	SCMPParameterProblem        = 4
+	SCMPExtIfDown               = 5
+	SCMPIntConnDown             = 6
+	SCMPEchoRequest             = 128
+	SCMPEchoReply               = 129
+	SCMPTracerouteRequest       = 130
+	SCMPTracerouteReply         = 131
+	scmpInfoBit           uint8 = 0x80
 )
 
 // Ext is one extension header.
@@ -285,6 +285,15 @@ func Contains(allowed []netip.AddrPort, x netip.AddrPort) bool {
 	return false
 }
 
+// sameHostBytes compares two raw host addresses of type t; of a service
+// address only the 16-bit service number counts (the rest is reserved).
+func sameHostBytes(t uint8, a, b []byte) bool {
+	if t == T4Svc && len(a) >= 2 && len(b) >= 2 {
+		return bytes.Equal(a[:2], b[:2])
+	}
+	return bytes.Equal(a, b)
+}
+
 // ---- path reversal
 
 const (
@@ -501,7 +510,7 @@ func Judge(in Input, next netip.AddrPort, out []byte) (kind, outcome string, fs 
 			return
 		}
 		if q.DstIA != p.SrcIA || q.SrcIA != p.DstIA || q.DstType != p.SrcType || q.SrcType != p.DstType ||
-			!bytes.Equal(q.RawDst, p.RawSrc) || !bytes.Equal(q.RawSrc, p.RawDst) {
+			!sameHostBytes(q.DstType, q.RawDst, p.RawSrc) || !sameHostBytes(q.SrcType, q.RawSrc, p.RawDst) {
 			add("C44:reply-addresses-not-swapped", "reply does not carry the request's addresses swapped")
 		}
 		if rt, rev, ok := ReversePath(p.PathType, p.Path); ok {
